@@ -433,7 +433,10 @@ impl Tracer {
                                 let temporary_hit = brkpt.is_temporary() && pid == brkpt.pid;
                                 let temporary_async_hit = brkpt.is_temporary_async();
                                 let watchpoint_hit = brkpt.is_wp_companion();
-                                if !temporary_hit && !watchpoint_hit && !temporary_async_hit {
+                                // a user-defined breakpoint hit by a sibling thread is a stop the user asked
+                                // for: report it (the step is cut short) instead of stepping over it silently
+                                let user_hit = matches!(brkpt.r#type(), BrkptType::UserDefined);
+                                if !temporary_hit && !watchpoint_hit && !temporary_async_hit && !user_hit {
                                     let mut unusual_brkpt = brkpt.clone();
                                     unusual_brkpt.pid = pid;
                                     if unusual_brkpt.is_enabled() {
